@@ -1003,3 +1003,260 @@ Example C09_gen_head_axes_instance :
   | _, _ => False
   end.
 Proof. split; [reflexivity | exact ex_axes_head_runs]. Qed.
+
+(* ====================================================================================
+   TRANSLATION EQUIVARIANCE WITH PREPROCESSING  (added; nothing above is changed)
+   Proofs: Proofs/BandpassShift.v (bandpass), Proofs/PreprocessMoved.v (convert_to_int and the generated head).
+   Vocabulary (Model/BandpassShift.v, Model/PreprocessMoved.v):
+     pasted2 H W oy ox h w g im   the H x W nested list im of exact rationals is a blank (zero) canvas that shows the
+                                  content g (extent h x w) at the offset (oy, ox):  im[i][j] == g (i-oy) (j-ox) inside
+                                  the box [oy, oy+h) x [ox, ox+w), == 0 elsewhere                 (pasted3: 3-D)
+     ghw_of t p, bhw_of p         the half-widths of the two filters of bandpass on one axis:
+                                  floor(truncate*lshort + 1/2) (0 when lshort <= 0)  and  (llong - 1) / 2
+     paddedb sh off csh ghw bhw   THE PADDING HYPOTHESIS, a boolean on (canvas shape, offset, shape of the content box,
+                                  Gaussian half-widths, boxcar half-widths), any number of axes: on every axis
+                                  max(ghw, bhw) <= off  and  off + csh + max(ghw, bhw) <= sh
+     qmoved2 dy dx H1 W1 a H2 W2 b   b[i+dy][j+dx] == a[i][j] for ALL integers i, j, an index outside an array
+                                  reading 0: "b is a, (dy, dx) further, blank elsewhere"           (qmoved3: 3-D)
+     bandpass2 / bandpass3        Model/Bandpass.v: the exact model that Properties/C10.v proves to be the documented
+                                  filter and equal to the generated Gen/preproc.py_bandpass
+     preprocess_stage nexp dt raw noise smooth thr
+                                  = py_convert_to_int fops2 (py_bandpass nd2 nexp (raw as float) integer-dtype noise smooth
+                                    (Some thr) truncate=4) (DInt dt): the GENERATED bandpass followed by the GENERATED
+                                    convert_to_int on 2-D nested lists of rationals -- what locate(preprocess=True) does to
+                                    an integer image between the validation and grey_dilation  [(36)]
+   ==================================================================================== *)
+From TP Require Import Model.Bandpass Model.BandpassSpec Model.BandpassSpec3 Model.BandpassShift Proofs.BandpassShift.
+From TP Require Import Model.Dilation Model.COM Model.Equivariance Model.PreprocessMoved Proofs.Dilation Proofs.Equivariance
+                       Proofs.PreprocessMoved.
+Open Scope Z_scope.
+
+(* (33) bandpass commutes with moving padded content, 2-D: the same content at two offsets in two blank canvases (of
+   any two shapes), both padded by at least the reach of both filters: the two bandpassed images have the shapes
+   of their inputs and the second is the first one moved by the offset difference, pixel for pixel, the clip at the
+   threshold included (any threshold, any truncate >= 0, per-axis lshort / llong). *)
+Theorem C09_bandpass_moved_2d :
+  forall (H1 W1 H2 W2 : nat) (oy1 ox1 oy2 ox2 h w : Z) (g : Z -> Z -> Q) (truncate : Q) (py px : axis_par) (threshold : Q)
+         (im1 im2 out1 out2 : img2),
+  (0 <= truncate)%Q -> 1 <= size py -> 1 <= size px ->
+  pasted2 H1 W1 oy1 ox1 h w g im1 -> pasted2 H2 W2 oy2 ox2 h w g im2 ->
+  paddedb [Z.of_nat H1; Z.of_nat W1] [oy1; ox1] [h; w] [ghw_of truncate py; ghw_of truncate px] [bhw_of py; bhw_of px] = true ->
+  paddedb [Z.of_nat H2; Z.of_nat W2] [oy2; ox2] [h; w] [ghw_of truncate py; ghw_of truncate px] [bhw_of py; bhw_of px] = true ->
+  bandpass2 truncate py px threshold im1 = Ok out1 -> bandpass2 truncate py px threshold im2 = Ok out2 ->
+  rect2 H1 W1 out1 /\ rect2 H2 W2 out2 /\ qmoved2 (oy2 - oy1) (ox2 - ox1) H1 W1 out1 H2 W2 out2.
+Proof. exact bandpass2_moved. Qed.
+Print Assumptions C09_bandpass_moved_2d.
+
+(* (33b) 3-D (the bandpass model exists for 2 and 3 axes, as numpy images in trackpy do) *)
+Theorem C09_bandpass_moved_3d :
+  forall (D1 H1 W1 D2 H2 W2 : nat) (oz1 oy1 ox1 oz2 oy2 ox2 d h w : Z) (g : Z -> Z -> Z -> Q) (truncate : Q)
+         (pz py px : axis_par) (threshold : Q) (im1 im2 out1 out2 : img3),
+  (0 <= truncate)%Q -> 1 <= size pz -> 1 <= size py -> 1 <= size px ->
+  pasted3 D1 H1 W1 oz1 oy1 ox1 d h w g im1 -> pasted3 D2 H2 W2 oz2 oy2 ox2 d h w g im2 ->
+  paddedb [Z.of_nat D1; Z.of_nat H1; Z.of_nat W1] [oz1; oy1; ox1] [d; h; w]
+          [ghw_of truncate pz; ghw_of truncate py; ghw_of truncate px] [bhw_of pz; bhw_of py; bhw_of px] = true ->
+  paddedb [Z.of_nat D2; Z.of_nat H2; Z.of_nat W2] [oz2; oy2; ox2] [d; h; w]
+          [ghw_of truncate pz; ghw_of truncate py; ghw_of truncate px] [bhw_of pz; bhw_of py; bhw_of px] = true ->
+  bandpass3 truncate pz py px threshold im1 = Ok out1 -> bandpass3 truncate pz py px threshold im2 = Ok out2 ->
+  rect3 D1 H1 W1 out1 /\ rect3 D2 H2 W2 out2 /\
+  qmoved3 (oz2 - oz1) (oy2 - oy1) (ox2 - ox1) D1 H1 W1 out1 D2 H2 W2 out2.
+Proof. exact bandpass3_moved. Qed.
+Print Assumptions C09_bandpass_moved_3d.
+
+(* (34) the stronger form behind (33): the bandpassed canvas is itself a canvas -- it shows ONE content
+   (bp_content2: a function of the kernel parameters, the threshold and the original content only, NOT of the canvas
+   shape or the offset) in the box grown by the reach max(ghw, bhw) on every side, and is blank elsewhere. *)
+Theorem C09_bandpass_of_canvas_2d :
+  forall (H W : nat) (truncate : Q) (py px : axis_par) (threshold : Q) (oy ox h w : Z) (g : Z -> Z -> Q) (im out : img2),
+  (0 <= truncate)%Q -> 1 <= size py -> 1 <= size px ->
+  pasted2 H W oy ox h w g im ->
+  paddedb [Z.of_nat H; Z.of_nat W] [oy; ox] [h; w] [ghw_of truncate py; ghw_of truncate px] [bhw_of py; bhw_of px] = true ->
+  bandpass2 truncate py px threshold im = Ok out ->
+  pasted2 H W (oy - reach_of truncate py) (ox - reach_of truncate px)
+          (h + 2 * reach_of truncate py) (w + 2 * reach_of truncate px)
+          (bp_content2 truncate py px threshold h w g) out.
+Proof. exact bandpass2_pasted. Qed.
+Print Assumptions C09_bandpass_of_canvas_2d.
+
+(* Non-vacuity of (33): lshort (1, 2), truncate 1: Gaussian half-widths (1, 2); llong (5, 7): boxcar half-widths (2, 3).
+   A 3 x 4 content at (2, 4) in a 9 x 12 canvas and at (5, 3) in a 10 x 11 canvas satisfies the padding predicate, at (1, 4)
+   it does not; a 3-D configuration satisfies it too.  Executed: both bandpassed images exist, pixel (3, 5) of the first
+   and (6, 4) of the second are 53334/20160, (3, 8) and (6, 7) are 18666/20160, the corners are blank. *)
+Example C09_padding_satisfiable :
+  [ghw_of 1 e_py; ghw_of 1 e_px] = [1; 2] /\ [bhw_of e_py; bhw_of e_px] = [2; 3] /\
+  paddedb [9; 12] [2; 4] [3; 4] [ghw_of 1 e_py; ghw_of 1 e_px] [bhw_of e_py; bhw_of e_px] = true /\
+  paddedb [10; 11] [5; 3] [3; 4] [ghw_of 1 e_py; ghw_of 1 e_px] [bhw_of e_py; bhw_of e_px] = true /\
+  paddedb [9; 12] [1; 4] [3; 4] [ghw_of 1 e_py; ghw_of 1 e_px] [bhw_of e_py; bhw_of e_px] = false /\
+  paddedb [7; 9; 12] [3; 2; 4] [2; 3; 4] [ghw_of 1 e_py; ghw_of 1 e_py; ghw_of 1 e_px]
+          [bhw_of e_py; bhw_of e_py; bhw_of e_px] = true.
+Proof. exact ex_padded2. Qed.
+
+Example C09_canvas_is_pasted : forall H W oy ox h w g, pasted2 H W oy ox h w g (canvas2 H W oy ox h w g).
+Proof. exact canvas2_pasted. Qed.
+
+Example C09_bandpass_moved_instance :
+  exists a b, bandpass2 1 e_py e_px (1 # 2) (canvas2 9 12 2 4 3 4 e_g) = Ok a /\
+              bandpass2 1 e_py e_px (1 # 2) (canvas2 10 11 5 3 3 4 e_g) = Ok b /\
+              (px2 a 3 5 == 53334 # 20160)%Q /\ (px2 b 6 4 == 53334 # 20160)%Q /\
+              (px2 a 3 8 == 18666 # 20160)%Q /\ (px2 b 6 7 == 18666 # 20160)%Q /\ (px2 a 0 1 == 0)%Q /\ (px2 b 3 0 == 0)%Q.
+Proof. exact ex_bandpass2_moved. Qed.
+
+(* (35) THE IMAGE HANDED TO grey_dilation / refine_com BY locate(preprocess=True) IS THE MOVED IMAGE (2-D, integer raw image,
+   arrays of exact rationals).  An integer content (h x w, blank outside its declared shape) pasted at two offsets into two
+   blank canvases, both padded by the reach of bandpass with truncate = 4 (stage_reach = max(floor(4*noise + 1/2),
+   (smoothing - 1)/2) per axis); noise_size < smoothing_size, smoothing_size odd (else bandpass refuses), threshold >= 0.
+   Then both runs of generated-bandpass ; generated-convert_to_int succeed, with equal scale factors (image.max() is
+   the same number: scale_to_gamut depends on the pixel values only, and nothing is negative), and return integer images
+   im1, im2 of the canvases' shapes with  moved (offset difference) im1 im2,  non-negative, whose bright pixels lie in the
+   content box grown by the reach: [fitsb] on the grown box gives content_inside / content_has_room.  These are the
+   premises of (1), (2), (3), (13) -- C09_maxima_moved, C09_refine_moved, C09_locate_discrete_moved,
+   C09_locate_whole_moved apply to im1, im2. *)
+Theorem C09_preprocess_moved :
+  forall (np_exp : Q -> Q) (dt : int_dtype) (content : image) (h w : Z) (ny nx : Q) (sy sx : Z) (threshold : Q),
+  shape content = [h; w] -> (forall c, pix content c <> 0 -> in_bounds (shape content) c) ->
+  1 <= h -> 1 <= w -> (0 <= threshold)%Q -> 0 <= iinfo_max dt -> 1 <= sy -> 1 <= sx ->
+  (ny < inject_Z sy)%Q -> (nx < inject_Z sx)%Q -> Z.odd sy = true -> Z.odd sx = true ->
+  forall H1 W1 oy1 ox1 H2 W2 oy2 ox2,
+  let T := Gen.preproc.py_bandpass_default_truncate in
+  let py := stage_par np_exp ny sy in
+  let px := stage_par np_exp nx sx in
+  let ry := stage_reach np_exp ny sy in
+  let rx := stage_reach np_exp nx sx in
+  let csh' := [h + 2 * ry; w + 2 * rx] in
+  let d := vsub [oy2; ox2] [oy1; ox1] in
+  paddedb [H1; W1] [oy1; ox1] [h; w] [ghw_of T py; ghw_of T px] [bhw_of py; bhw_of px] = true ->
+  paddedb [H2; W2] [oy2; ox2] [h; w] [ghw_of T py; ghw_of T px] [bhw_of py; bhw_of px] = true ->
+  exists sf1 sf2 im1 im2,
+    preprocess_stage np_exp dt (embed [H1; W1] [oy1; ox1] content) [ny; nx] [sy; sx] threshold = ROk (sf1, ImZ dt im1) /\
+    preprocess_stage np_exp dt (embed [H2; W2] [oy2; ox2] content) [ny; nx] [sy; sx] threshold = ROk (sf2, ImZ dt im2) /\
+    (sf1 == sf2)%Q /\ shape im1 = [H1; W1] /\ shape im2 = [H2; W2] /\
+    moved d im1 im2 /\
+    (forall p, 0 <= pix im1 p) /\ (forall p, 0 <= pix im2 p) /\
+    (forall mg, fitsb [H1; W1] [oy1 - ry; ox1 - rx] csh' mg = true -> content_inside mg im1) /\
+    (forall mg, fitsb [H2; W2] [oy2 - ry; ox2 - rx] csh' mg = true -> content_inside mg im2) /\
+    (forall P, let m := map (fun r => r + Z.of_nat (pred (iters_of (lp_maxit P)))) (lp_radius P) in
+               fitsb [H1; W1] [oy1 - ry; ox1 - rx] csh' m = true -> fitsb [H2; W2] [oy2 - ry; ox2 - rx] csh' m = true ->
+               content_has_room P d im1 im2).
+Proof. exact preprocess_moved. Qed.
+Print Assumptions C09_preprocess_moved.
+
+(* (35b) the form behind (35): both results are canvases of ONE processed content (pre_content: box grown by the reach,
+   value trunc(scale_factor * max(bandpassed content, 0))), so every theorem of (3b) about [embed] applies to them *)
+Theorem C09_preprocess_of_canvas :
+  forall (np_exp : Q -> Q) (dt : int_dtype) (content : image) (h w : Z) (ny nx : Q) (sy sx : Z) (threshold : Q),
+  shape content = [h; w] -> (forall c, pix content c <> 0 -> in_bounds (shape content) c) ->
+  1 <= h -> 1 <= w -> (0 <= threshold)%Q -> 0 <= iinfo_max dt -> 1 <= sy -> 1 <= sx ->
+  (ny < inject_Z sy)%Q -> (nx < inject_Z sx)%Q -> Z.odd sy = true -> Z.odd sx = true ->
+  forall H1 W1 oy1 ox1 H2 W2 oy2 ox2,
+  let T := Gen.preproc.py_bandpass_default_truncate in
+  let py := stage_par np_exp ny sy in
+  let px := stage_par np_exp nx sx in
+  let ry := stage_reach np_exp ny sy in
+  let rx := stage_reach np_exp nx sx in
+  paddedb [H1; W1] [oy1; ox1] [h; w] [ghw_of T py; ghw_of T px] [bhw_of py; bhw_of px] = true ->
+  paddedb [H2; W2] [oy2; ox2] [h; w] [ghw_of T py; ghw_of T px] [bhw_of py; bhw_of px] = true ->
+  exists sf1 sf2,
+    let content' := pre_content np_exp sf1 ny nx sy sx threshold content in
+    preprocess_stage np_exp dt (embed [H1; W1] [oy1; ox1] content) [ny; nx] [sy; sx] threshold =
+      ROk (sf1, ImZ dt (embed [H1; W1] [oy1 - ry; ox1 - rx] content')) /\
+    preprocess_stage np_exp dt (embed [H2; W2] [oy2; ox2] content) [ny; nx] [sy; sx] threshold =
+      ROk (sf2, ImZ dt (embed [H2; W2] [oy2 - ry; ox2 - rx] content')) /\
+    (sf1 == sf2)%Q /\
+    shape content' = [h + 2 * ry; w + 2 * rx] /\
+    (forall c, pix content' c <> 0 -> in_bounds (shape content') c) /\
+    (forall c, 0 <= pix content' c) /\
+    fitsb [H1; W1] [oy1 - ry; ox1 - rx] (shape content') [0; 0] = true /\
+    fitsb [H2; W2] [oy2 - ry; ox2 - rx] (shape content') [0; 0] = true.
+Proof. exact preprocess_stage_embed. Qed.
+Print Assumptions C09_preprocess_of_canvas.
+
+(* (36) the GENERATED head of locate with preprocess=True, invert=False on an integer image (arrays: fops2) is the
+   validation, then preprocess_stage on the squeezed image with the validated noise_size / smoothing_size and the threshold
+   (default 1 for an integer image), then head_after: grey_dilation on the processed image, refine_com on (raw, processed). *)
+Theorem C09_gen_head_runs_preprocess_stage :
+  forall np_percentile np_exp NUMBA_AVAILABLE dt raw0 diameter minmass maxsize separation noise_size smoothing_size threshold
+         percentile topn max_iterations filter_after characterize engine,
+  let raw := squeeze_image raw0 in
+  py_locate_head fops2 np_percentile np_exp NUMBA_AVAILABLE (ImZ dt raw0) diameter minmass maxsize separation noise_size
+                 smoothing_size threshold false percentile topn true max_iterations None filter_after characterize engine =
+  rbind (locate_args (List.length (shape raw)) diameter maxsize separation smoothing_size noise_size) (fun V =>
+  rbind (preprocess_stage np_exp dt raw (a_noise V) (a_smooth V) (match threshold with Some t => t | None => 1%Q end))
+        (head_after np_percentile NUMBA_AVAILABLE dt raw V minmass maxsize topn percentile max_iterations characterize engine)).
+Proof. exact gen_head_preprocess_stage. Qed.
+Print Assumptions C09_gen_head_runs_preprocess_stage.
+
+(* (37) (26) WITH PREPROCESSING: the generated head, preprocess=True, python engine, on the same integer content at two
+   places (premises of (35); the grown content box keeps the margin and radius + max_iterations - 1 from the edges of both
+   canvases): both runs succeed; the maxima found are the moved maxima; the rows of the two frames refine_com returns
+   (computed on the processed image, raw_mass on the raw image) correspond one to one, every position moved by exactly the
+   offset difference and mass, size(s), signal, raw_mass identical.
+   PARTIAL with respect to locate's final table: the tail (where_close / minmass / maxsize / topn, static error) is not
+   composed here -- (13) C09_locate_whole_moved covers it for the rows of the processed image under no_tie, with raw = image;
+   a tail theorem for rows whose raw_mass comes from a second image is not proved.  Also not covered: float raw images
+   (img_as_int raises in the integer refinement model), engine='numba', 3-D for the convert_to_int step (fops2 is 2-D; the
+   bandpass step is (33b)), and the correspondence of exact rationals to float64 rounding (harness). *)
+Theorem C09_gen_head_preprocess_moved_partial :
+  forall (np_percentile : list Z -> Q -> Q) (np_exp : Q -> Q) NUMBA_AVAILABLE percentile,
+  (forall l l', Permutation l l' -> np_percentile l percentile = np_percentile l' percentile) ->
+  (forall l, (forall v, In v l -> 0 <= v) -> (0 <= np_percentile l percentile)%Q) ->
+  forall dt content h w H1 W1 oy1 ox1 H2 W2 oy2 ox2 raw01 raw02 diameter minmass maxsize separation noise_size smoothing_size
+         threshold topn max_iterations filter_after characterize engine V ny nx sy sx,
+  let thr := match threshold with Some t => t | None => 1%Q end in
+  let T := Gen.preproc.py_bandpass_default_truncate in
+  let py := stage_par np_exp ny sy in
+  let px := stage_par np_exp nx sx in
+  let ry := stage_reach np_exp ny sy in
+  let rx := stage_reach np_exp nx sx in
+  let csh' := [h + 2 * ry; w + 2 * rx] in
+  let d := vsub [oy2; ox2] [oy1; ox1] in
+  let P := lp_of V max_iterations characterize in
+  let m := map (fun r => r + Z.of_nat (pred (iters_of max_iterations))) (lp_radius P) in
+  shape content = [h; w] -> (forall c, pix content c <> 0 -> in_bounds (shape content) c) ->
+  1 <= h -> 1 <= w -> (0 <= thr)%Q -> 0 <= iinfo_max dt -> 1 <= sy -> 1 <= sx ->
+  (ny < inject_Z sy)%Q -> (nx < inject_Z sx)%Q -> Z.odd sy = true -> Z.odd sx = true ->
+  squeeze_image raw01 = embed [H1; W1] [oy1; ox1] content -> squeeze_image raw02 = embed [H2; W2] [oy2; ox2] content ->
+  locate_args 2 diameter maxsize separation smoothing_size noise_size = ROk V ->
+  a_noise V = [ny; nx] -> a_smooth V = [sy; sx] -> List.length (a_sep V) = 2%nat ->
+  Forall (fun s => (0 <= s)%Q) (a_sep V) -> Forall (fun s => 1 <= s) (map (box_size 2) (a_sep V)) ->
+  py_engine NUMBA_AVAILABLE 2 engine ->
+  paddedb [H1; W1] [oy1; ox1] [h; w] [ghw_of T py; ghw_of T px] [bhw_of py; bhw_of px] = true ->
+  paddedb [H2; W2] [oy2; ox2] [h; w] [ghw_of T py; ghw_of T px] [bhw_of py; bhw_of px] = true ->
+  fitsb [H1; W1] [oy1 - ry; ox1 - rx] csh' (lp_margin P) = true -> fitsb [H2; W2] [oy2 - ry; ox2 - rx] csh' (lp_margin P) = true ->
+  fitsb [H1; W1] [oy1 - ry; ox1 - rx] csh' m = true -> fitsb [H2; W2] [oy2 - ry; ox2 - rx] csh' m = true ->
+  exists r1 r2 outs1 outs2 rows,
+    py_locate_head fops2 np_percentile np_exp NUMBA_AVAILABLE (ImZ dt raw01) diameter minmass maxsize separation noise_size
+                   smoothing_size threshold false percentile topn true max_iterations None filter_after characterize engine = ROk r1 /\
+    py_locate_head fops2 np_percentile np_exp NUMBA_AVAILABLE (ImZ dt raw02) diameter minmass maxsize separation noise_size
+                   smoothing_size threshold false percentile topn true max_iterations None filter_after characterize engine = ROk r2 /\
+    PyRefine.of_rows (head_frame r1) = map COMRefine.ref_row outs1 /\
+    PyRefine.of_rows (head_frame r2) = map COMRefine.ref_row outs2 /\
+    Permutation outs2 rows /\ Forall2 (row_moved d) outs1 rows /\
+    Permutation (head_coords r2) (map (fun p => vadd p d) (head_coords r1)).
+Proof. exact gen_head_preprocess_moved. Qed.
+Print Assumptions C09_gen_head_preprocess_moved_partial.
+
+(* Non-vacuity of (35): the 5 x 5 blob of the examples above, noise_size 1, smoothing_size 5, threshold 1/10 and a stand-in
+   for np.exp (q |-> 1/(1-q)): truncate = 4 gives the reach 4; the canvases ex_im1 = embed [14;15] [4;5] and
+   ex_im2 = embed [16;14] [7;4] of (1)-(3) satisfy the padding predicate.  Executed: equal scale factors; the brightest
+   pixel (255) at (6, 7) resp. (9, 6), the ring of the stand-in kernel at (2, 7) / (5, 6) and (1, 6) / (4, 5), zero between. *)
+Example C09_preprocess_premises_satisfiable :
+  let T := Gen.preproc.py_bandpass_default_truncate in
+  let p := stage_par ex_nexp 1 5 in
+  shape ex_content = [5; 5] /\ (forall c, pix ex_content c <> 0 -> in_bounds (shape ex_content) c) /\
+  (0 <= 1 # 10)%Q /\ 0 <= iinfo_max (mkDT false 8) /\ (1 < inject_Z 5)%Q /\ Z.odd 5 = true /\
+  stage_reach ex_nexp 1 5 = 4 /\
+  paddedb [14; 15] [4; 5] [5; 5] [ghw_of T p; ghw_of T p] [bhw_of p; bhw_of p] = true /\
+  paddedb [16; 14] [7; 4] [5; 5] [ghw_of T p; ghw_of T p] [bhw_of p; bhw_of p] = true.
+Proof. exact ex_pre_premises. Qed.
+
+Example C09_preprocess_instance :
+  ex_im1 = embed [14; 15] [4; 5] ex_content /\ ex_im2 = embed [16; 14] [7; 4] ex_content /\
+  match preprocess_stage ex_nexp (mkDT false 8) ex_im1 [1; 1]%Q [5; 5] (1 # 10),
+        preprocess_stage ex_nexp (mkDT false 8) ex_im2 [1; 1]%Q [5; 5] (1 # 10) with
+  | ROk (sf1, ImZ _ im1), ROk (sf2, ImZ _ im2) =>
+      sf1 = (803409375 # 1596200)%Q /\ sf2 = sf1 /\ shape im1 = [14; 15] /\ shape im2 = [16; 14] /\
+      pix im1 [6; 7] = 255 /\ pix im2 [9; 6] = 255 /\ pix im1 [2; 7] = 172 /\ pix im2 [5; 6] = 172 /\
+      pix im1 [1; 6] = 54 /\ pix im2 [4; 5] = 54 /\ pix im1 [6; 6] = 0 /\ pix im2 [9; 5] = 0
+  | _, _ => False
+  end.
+Proof. split; [reflexivity|]. split; [reflexivity|]. exact ex_pre_runs. Qed.
